@@ -609,29 +609,43 @@ def _r_collect(text):
 
 
 def _r_mapiter(text):
-    """`for (K, V) in M.into_iter() { B }` over a HashMap ->
+    """`for (K, V) in M.into_iter() { B }` (or `in M` for a HashMap moved into the loop; K may itself be a tuple pattern) ->
          let mut vx_m = M; loop { match vx_pop_any(&mut vx_m) { Some((K, V)) => { B } None => break, } }
     vx_pop_any (trusted) removes and returns an ARBITRARY entry, which models every iteration order. B has no continue/break."""
     m = mask(text)
     n = 0
+    pos = 0
     while True:
-        mt = re.search(r"\bfor\s*\(\s*(\w+)\s*,\s*(\w+)\s*\)\s*in\s+", m)
+        mt = re.search(r"\bfor\s*\(", m[pos:])
         if not mt:
             break
-        o = find_top_level(m, mt.end(), len(m), "{")
-        hdr = text[mt.end():o].rstrip()
-        if not hdr.endswith(".into_iter()"):
-            break
-        recv = hdr[:-len(".into_iter()")]
+        po = pos + mt.end() - 1
+        pc = match_close(m, po)
+        rest = re.match(r"\s*in\s+", m[pc + 1:])
+        if not rest:
+            pos = pc + 1
+            continue
+        hs = pc + 1 + rest.end()
+        o = find_top_level(m, hs, len(m), "{")
+        hdr = text[hs:o].strip()
+        if hdr.endswith(".into_iter()"):
+            recv = hdr[:-len(".into_iter()")]
+        elif re.match(r"^\w+$", hdr) and "map" in hdr:
+            recv = hdr      # a HashMap variable moved into the loop (IntoIterator for HashMap)
+        else:
+            pos = pc + 1
+            continue
         c = match_close(m, o)
         if re.search(r"\b(continue|break)\b", m[o + 1:c]):
             raise SpliceError("R-MAPITER: body contains continue/break")
         body = "{ /*@vx:mapiter.arm_start@*/" + text[o + 1:c] + "/*@vx:mapiter.arm_end@*/ }"
-        k, v = mt.group(1), mt.group(2)
-        new = ("let mut vx_m = %s;\n            loop {\n                match vx_pop_any(&mut vx_m) {\n                    Some((%s, %s)) => %s\n"
-               "                    None => break,\n                }\n            }" % (recv, k, v, body))
-        text = text[:mt.start()] + new + text[c + 1:]
+        pat = text[po:pc + 1]
+        start = pos + mt.start()
+        new = ("let mut vx_m = %s;\n            loop {\n                match vx_pop_any(&mut vx_m) {\n                    Some(%s) => %s\n"
+               "                    None => break,\n                }\n            }" % (recv, pat, body))
+        text = text[:start] + new + text[c + 1:]
         m = mask(text)
+        pos = start + len(new)
         n += 1
     return text, n
 
